@@ -55,6 +55,11 @@ func genInjectMode(r *rng, out *bufio.Writer, nprog int, maxK int, irq bool) {
 		// DI section with a subroutine call
 		emit(0xf3)
 		safe(1 + r.n(3))
+		if r.chance(60) {
+			// a repeating block instruction inside the DI section: a request raised here stays pending through every repetition
+			emit(0x21, uint8(0x20+r.n(4)), 0x80, 0x11, uint8(0x40+r.n(4)), 0x80, 0x01, uint8(2+r.n(4)), 0x00)
+			emit(0xed, []uint8{0xb0, 0xb8, 0xb1, 0xb9}[r.n(4)])
+		}
 		callAt := len(prog)
 		emit(0xcd, 0x00, 0x00)
 		safe(r.n(2))
@@ -138,6 +143,15 @@ func genInjectMode(r *rng, out *bufio.Writer, nprog int, maxK int, irq bool) {
 				vv := *v
 				vv.ID = fmt.Sprintf("inj-%d-k%d-%s", p, k, kd.name)
 				vv.Inj = []Inject{{At: k, Intr: kd.in}}
+				fmt.Fprintln(out, vv.String())
+			}
+			// two requests: an NMI, and a maskable one raised while the NMI handler runs (IFF1 clear, IFF2 holding the old IFF1): it must
+			// wait until RETN has restored IFF1, and the whole episode must still be transparent
+			if mode != 0 && (maxK == 0 || r.chance(35)) {
+				vv := *v
+				vv.ID = fmt.Sprintf("inj-%d-k%d-nmi%s", p, k, kinds[1].name)
+				vv.Inj = []Inject{{At: k, Intr: Intr{Type: 0}}, {At: k + 1 + r.n(4), Intr: kinds[1].in}}
+				vv.N = total + 14
 				fmt.Fprintln(out, vv.String())
 			}
 		}
